@@ -29,7 +29,7 @@ sys.path.insert(0, HARNESS)
 import refsolver  # noqa: E402  (reader / renderer and the in-process Strict machine for the second tie)
 
 LEAN_MODULES = ["PySMT.Props.C17"]
-RULE = ("API-call sequences over add_assertion(21 formulas: Bool/BV/Int/Real over six exact rationals/custom sorts of arity 0 and 2, some with names that need quoting/symbols named like generated let binders/arrays whose "
+RULE = ("API-call sequences over add_assertion(23 formulas: the Boolean constants/Bool/BV/Int/Real over six exact rationals/custom sorts of arity 0 and 2, some with names that need quoting/symbols named like generated let binders/arrays whose "
         "index or element sort is a custom sort occurring nowhere else, overlapping symbols) / push(0|1|2|3) / pop(0|1|2|3) / "
         "solve / get_value / get_model / reset_assertions / is_sat / is_valid / is_unsat, user-legal (pop within the user's "
         "stack, get_value/get_model only directly after a sat verdict); every case in one of 3 environments of the process, "
@@ -145,6 +145,10 @@ class Pool(object):
             "Fq3": (m.GT(q2, m.Real(4)), lambda e: e["q2"] > 4, ["q2"]),
             "Fw": (m.Not(m.Equals(wa, wb)), lambda e: e["wa"] != e["wb"], ["wa", "wb"]),
             "Fw2": (m.Equals(wc, wc2), lambda e: e["wc"] == e["wc2"], ["wc", "wc2"]),
+            # Boolean constants (also as what And() / Or() construct): TRUE is valid, FALSE is valid exactly when the
+            # live assertions are unsatisfiable -- the solver has to be asked
+            "Ftrue": (m.And(), lambda e: True, []),
+            "Ffalse": (m.Or(), lambda e: False, []),
             "Fd": (m.And(m.Or(d0, d1), m.Not(d1)), lambda e: (e[".def_0"] or e[".def_1"]) and not e[".def_1"],
                    [".def_0", ".def_1"]),
             "Fd2": (m.And(m.Or(d0, a), m.Or(m.Not(d1), b), m.Or(d1, d0)),
@@ -1351,6 +1355,12 @@ def random_sequence(rng, length):
 
 
 SCENARIOS = [
+    # Boolean constants as arguments of the shortcuts, on an inconsistent and on a consistent stack
+    [["add", "Fa"], ["add", "Fna"], ["is_valid", "Ffalse"], ["is_sat", "Ftrue"], ["is_unsat", "Ffalse"], ["is_valid", "Ftrue"],
+     ["is_unsat", "Ftrue"], ["solve"], ["reset"], ["is_valid", "Ffalse"], ["is_sat", "Ftrue"], ["model"]],
+    [["add", "Fa"], ["is_valid", "Ffalse"], ["is_valid", "Ftrue"], ["is_sat", "Ffalse"], ["is_unsat", "Ffalse"], ["solve"],
+     ["model"], ["push", 1], ["add", "Ffalse"], ["solve"], ["is_valid", "Ffalse"], ["is_valid", "Fna"], ["pop", 1],
+     ["add", "Ftrue"], ["solve"], ["model"]],
     # exact rationals: the values reported (`(/ 1 3)`, `(- (/ 22 7))`, a big numerator) come back exactly
     [["add", "Fq"], ["solve"], ["getv", "q1"], ["model"], ["push", 1], ["add", "Fq2"], ["solve"], ["model"], ["getv", "Tq"],
      ["pop", 1], ["add", "Fq3"], ["solve"], ["model"], ["getv", "q2"]],
